@@ -1,4 +1,5 @@
 import EpdVerif.AuditCmd
 import EpdVerif.Props.C06
+import EpdVerif.Props.C06Win
 import EpdVerif.Props.Panels
 #audit_namespace EpdVerif.Props.C06
